@@ -59,6 +59,7 @@ KIND = [
     ("invariant not satisfied at end of loop body", "invariant_end"),
     ("invariant not satisfied before loop", "invariant_entry"),
     ("loop invariant not satisfied", "loop_exit"),
+    ("unable to prove post-condition of closure", "closure_post"),
     ("assertion failed", "assert"),
     ("decreases not satisfied", "decreases"),
     ("could not prove termination", "decreases"),
